@@ -1104,8 +1104,7 @@ class Tables:
                         fn = prog.resolve_expr(m, fx)
                     if not isinstance(fn, Func):
                         raise AnalysisError("%s: keyword %r bound to unresolvable %s" % (name, ks, norm(fx)))
-                    if ks in d.table:
-                        raise AnalysisError("%s: duplicate key %r in keyword table" % (name, ks))
+                    # dict(base, **changes), {**base, "k": f}, a literal naming a key twice: the later entry is the one in force
                     d.table[ks] = fn
                     d.table_exprs[ks] = fx
                 # type checker
